@@ -1,110 +1,137 @@
 (* QuoteFacts.v -- C03: the string quoting round trip
      helper.string  ->  STRING production of the generated list, run by the shared tokenizer model
                     ->  unicodesub, cleanstring  ->  Base._stringtokenvalue
-   proved for every value without a backslash and every following text; refuted (with the
-   witness a parse produces) for values that contain a backslash.                              *)
+   proved for every REPRESENTABLE value (rep_ok: every value except those with an escape-introducing
+   backslash directly before a double quote - kept as it is by helper.string because the pinned test
+   test_value.py:411 asserts that output - or a backslash before a newline character, which the
+   tokenizer's cleanstring removes) and every following text; refuted for the excluded quote case.   *)
 From CssV Require Import Base Regex RegexFacts RegexTotal Gen.Productions Gen.TokTables Gen.PyTables
      Tokenizer TokenizerFacts Quote Gen.Quote.
 
-(* ------------------------------------------------------------------ Python operations *)
-Lemma py_replace_fuel_char fuel : forall x c b,
-  (length x < fuel)%nat ->
-  py_replace_fuel fuel x [c] b = flat_map (fun y => if N.eqb c y then b else [y]) x.
+
+(* ------------------------------------------------------------------ characters *)
+Definition ishex (c : N) : bool := mem c str_hexdigits.
+Definition isnl (c : N) : bool := (N.eqb c 10 || N.eqb c 13 || N.eqb c 12)%N.
+Definition hexr : list (N * N) := [(48, 57); (65, 70); (97, 102)]%N.
+
+Lemma hexdigits_eq :
+  str_hexdigits = [48;49;50;51;52;53;54;55;56;57;97;98;99;100;101;102;65;66;67;68;69;70]%N.
+Proof. reflexivity. Qed.
+Lemma ishex_small : forallb (fun x => Bool.eqb (ishex x) (in_ranges x hexr)) (map N.of_nat (seq 0 128)) = true.
+Proof. vm_compute. reflexivity. Qed.
+Lemma ishex_ranges x : ishex x = in_ranges x hexr.
 Proof.
-  induction fuel as [|f IH]; intros x c b H; [lia|]. destruct x as [|y x']; [reflexivity|].
-  cbn [py_replace_fuel starts flat_map length skipn]. rewrite andb_true_r.
-  simpl in H. destruct (N.eqb c y); rewrite IH by lia; reflexivity.
+  destruct (N.ltb_spec x 128) as [Hlt|Hge].
+  - pose proof ishex_small as H. rewrite forallb_forall in H. apply eqb_prop. apply H.
+    rewrite <- (N2Nat.id x). apply in_map. apply in_seq. lia.
+  - assert (E : forall k, (k < 128)%N -> N.eqb k x = false) by (intros k Hk; apply N.eqb_neq; lia).
+    unfold ishex. rewrite hexdigits_eq. cbn [mem]. rewrite !E by lia. cbn [orb].
+    unfold hexr. cbn [in_ranges]. replace (N.leb x 57) with false by (symmetry; apply N.leb_gt; lia).
+    replace (N.leb x 70) with false by (symmetry; apply N.leb_gt; lia).
+    replace (N.leb x 102) with false by (symmetry; apply N.leb_gt; lia). rewrite !andb_false_r. reflexivity.
 Qed.
 
-Lemma py_replace_char x c b : py_replace x [c] b = flat_map (fun y => if N.eqb c y then b else [y]) x.
-Proof. unfold py_replace. apply py_replace_fuel_char. lia. Qed.
-
-Lemma flat_map_flat_map {A B C} (f : B -> list C) (g : A -> list B) l :
-  flat_map f (flat_map g l) = flat_map (fun a => flat_map f (g a)) l.
-Proof. induction l as [|a l IH]; simpl; [reflexivity|]. rewrite flat_map_app, IH. reflexivity. Qed.
-
-Lemma flat_map_ext_in {A B} (f g : A -> list B) l :
-  (forall a, In a l -> f a = g a) -> flat_map f l = flat_map g l.
+(* what the facts below need about a character that is neither a hex digit nor a newline *)
+Lemma ranges_bounds x : in_ranges x hexr = false ->
+  ((x < 48 \/ 57 < x) /\ (x < 65 \/ 70 < x) /\ (x < 97 \/ 102 < x))%N.
 Proof.
-  induction l as [|a l IH]; intros H; simpl; [reflexivity|].
-  rewrite H by (left; reflexivity). rewrite IH; [reflexivity|]. intros b Hb. apply H. right. exact Hb.
+  unfold hexr. cbn [in_ranges]. intros H.
+  repeat (apply orb_false_iff in H as [? H]).
+  repeat match goal with H : (_ && _)%bool = false |- _ => apply andb_false_iff in H end.
+  repeat match goal with H : _ \/ _ |- _ => destruct H end;
+  repeat match goal with H : N.leb _ _ = false |- _ => apply N.leb_gt in H end; try discriminate; lia.
+Qed.
+Lemma ranges_hex_true x : in_ranges x hexr = true -> ((48 <= x <= 57) \/ (65 <= x <= 70) \/ (97 <= x <= 102))%N.
+Proof.
+  unfold hexr. cbn [in_ranges]. intros H.
+  repeat (apply orb_true_iff in H as [H|H]); try discriminate;
+    apply andb_true_iff in H as [H1 H2]; apply N.leb_le in H1, H2; lia.
+Qed.
+Lemma isnl_false x : isnl x = false -> x <> 10%N /\ x <> 13%N /\ x <> 12%N.
+Proof.
+  unfold isnl. intros H. repeat (apply orb_false_iff in H as [H ?]).
+  repeat match goal with H : N.eqb _ _ = false |- _ => apply N.eqb_neq in H end. auto.
 Qed.
 
-Lemma py_slice_1_1 c d (y : str) : py_slice_nn 1 1 (c :: y ++ [d]) = y.
+Ltac ranges_false :=
+  cbn [in_ranges];
+  repeat match goal with |- context [N.leb ?a ?b] => destruct (N.leb_spec a b) end; simpl; try reflexivity; lia.
+
+(* str_plain, case by case *)
+Lemma str_plain_cases c : c <> 92%N ->
+  ((c = 34 /\ str_plain c = [92; 34]) \/ (c = 10 /\ str_plain c = [92; 97; 32]) \/
+   (c = 13 /\ str_plain c = [92; 100; 32]) \/ (c = 12 /\ str_plain c = [92; 99; 32]) \/
+   (c <> 34 /\ isnl c = false /\ str_plain c = [c]))%N.
 Proof.
-  unfold py_slice_nn. cbn [skipn length]. rewrite app_length. cbn [length].
-  replace (S (length y + 1) - 1 - 1)%nat with (length y) by lia.
-  rewrite firstn_app, firstn_all, Nat.sub_diag. cbn [firstn]. apply app_nil_r.
+  intros _. unfold str_plain, str_quote, str_quote_esc, str_newlines, isnl. cbn [str_assoc].
+  destruct (N.eqb_spec c 34) as [->|H34]; [left; auto|].
+  rewrite (N.eqb_sym 10 c), (N.eqb_sym 13 c), (N.eqb_sym 12 c).
+  destruct (N.eqb_spec c 10) as [->|H10]; [right; left; auto|].
+  destruct (N.eqb_spec c 13) as [->|H13]; [right; right; left; auto|].
+  destruct (N.eqb_spec c 12) as [->|H12]; [right; right; right; left; auto|].
+  right; right; right; right. auto.
+Qed.
+Lemma str_plain_nonempty c : (0 < length (str_plain c))%nat.
+Proof.
+  unfold str_plain, str_quote, str_quote_esc, str_newlines. cbn [str_assoc].
+  repeat match goal with |- context [N.eqb ?a ?b] => destruct (N.eqb a b) end; simpl; lia.
 Qed.
 
-(* ------------------------------------------------------------------ helper.string on backslash-free values *)
-(* what helper.string writes for one character *)
-Definition esc1 (c : N) : str :=
-  if N.eqb c 10%N then [92; 97; 32]%N else if N.eqb c 13%N then [92; 100; 32]%N
-  else if N.eqb c 12%N then [92; 99; 32]%N else if N.eqb c 34%N then [92; 34]%N else [c].
-(* the same after the tokenizer's unicodesub: only the escaped quote is left *)
-Definition esc2 (c : N) : str := if N.eqb c 34%N then [92; 34]%N else [c].
+(* ------------------------------------------------------------------ representable values *)
+Fixpoint rep_ok (st : sstate) (v : str) : bool :=
+  match v with
+  | [] => true
+  | c :: r =>
+    match st with
+    | SN => if N.eqb c 92%N then rep_ok S1 r else rep_ok SN r
+    | S1 => if N.eqb c 92%N then rep_ok S2 r else negb (N.eqb c 34%N) && negb (isnl c) && rep_ok SN r
+    | S2 => if N.eqb c 92%N then rep_ok S1 r else negb (isnl c) && rep_ok SN r
+    end
+  end.
+Definition representable (v : str) : Prop := rep_ok SN v = true.
 
-Lemma esc1_cases c :
-  (c = 10%N /\ esc1 c = [92; 97; 32]%N) \/ (c = 13%N /\ esc1 c = [92; 100; 32]%N) \/
-  (c = 12%N /\ esc1 c = [92; 99; 32]%N) \/ (c = 34%N /\ esc1 c = [92; 34]%N) \/
-  (c <> 10%N /\ c <> 13%N /\ c <> 12%N /\ c <> 34%N /\ esc1 c = [c])%N.
+Lemma nobs_representable v : no_backslash v -> representable v.
 Proof.
-  unfold esc1.
-  destruct (N.eqb_spec c 10); [left; auto|]. destruct (N.eqb_spec c 13); [right; left; auto|].
-  destruct (N.eqb_spec c 12); [right; right; left; auto|].
-  destruct (N.eqb_spec c 34); [right; right; right; left; auto|]. right; right; right; right; auto.
+  unfold representable. induction v as [|c v IH]; intros Hn; [reflexivity|]. cbn [rep_ok].
+  replace (N.eqb c 92) with false by (symmetry; apply N.eqb_neq; intros ->; apply Hn; left; reflexivity).
+  apply IH. intros H. apply Hn. right. exact H.
 Qed.
 
-Lemma esc_chain c : c <> 92%N ->
-  flat_map (fun a => flat_map (fun a0 => flat_map (fun y => if N.eqb 34%N y then [92; 34]%N else [y])
-                                            (if N.eqb 12%N a0 then [92; 99; 32]%N else [a0]))
-                              (if N.eqb 13%N a then [92; 100; 32]%N else [a]))
-           (if N.eqb 10%N c then [92; 97; 32]%N else [c]) = esc1 c.
+(* the text after the tokenizer's unicodesub (and cleanstring), and the remaining value, per state *)
+Definition bplain (c : N) : str := if N.eqb c 34%N then [92; 34]%N else [c].
+Fixpoint bloop (st : sstate) (v : str) : str :=
+  match v with
+  | [] => match st with SN => [] | _ => [92; 92]%N end
+  | c :: r =>
+    match st with
+    | SN => if N.eqb c 92%N then bloop S1 r else bplain c ++ bloop SN r
+    | S1 => if N.eqb c 92%N then 92%N :: bloop S2 r else 92%N :: bplain c ++ bloop SN r
+    | S2 => if N.eqb c 92%N then 92%N :: bloop S1 r else 92%N :: bplain c ++ bloop SN r
+    end
+  end.
+Definition vsuf (st : sstate) (r : str) : str := match st with SN => r | _ => 92%N :: r end.
+
+Lemma hstring_unfold v : hstring v = 34%N :: hstring_loop SN v ++ [34%N].
+Proof. reflexivity. Qed.
+
+Lemma loop_head st r tl : st <> SN -> exists t', hstring_loop st r ++ tl = 92%N :: t'.
 Proof.
-  intros H92.
-  destruct (esc1_cases c) as [[-> ->]|[[-> ->]|[[-> ->]|[[-> ->]|(H1 & H2 & H3 & H4 & ->)]]]]; try reflexivity.
-  apply N.eqb_neq in H1, H2, H3, H4. rewrite N.eqb_sym in H1, H2, H3, H4.
-  repeat (rewrite ?H1, ?H2, ?H3, ?H4; cbn [flat_map app]). rewrite ?app_nil_r. reflexivity.
+  intros Hs. destruct r as [|c r]; destruct st; try congruence; cbn [hstring_loop];
+    unfold str_end1, str_end2, str_s1_first, str_s2_first, str_s1_hex, str_s1_else, str_s2_hex, str_s2_else, str_bs;
+    repeat match goal with |- context [if ?b then _ else _] => destruct b end; cbn [app]; eauto.
+Qed.
+Lemma bloop_head st r tl : st <> SN -> exists t', bloop st r ++ tl = 92%N :: t'.
+Proof.
+  intros Hs. destruct r as [|c r]; destruct st; try congruence; cbn [bloop];
+    repeat match goal with |- context [if ?b then _ else _] => destruct b end; cbn [app]; eauto.
 Qed.
 
-Lemma esc1_last c : c <> 92%N -> exists pre l, esc1 c = pre ++ [l] /\ l <> 92%N.
-Proof.
-  intros H.
-  destruct (esc1_cases c) as [[_ ->]|[[_ ->]|[[_ ->]|[[_ ->]|(_ & _ & _ & _ & ->)]]]].
-  - exists [92; 97]%N, 32%N. split; [reflexivity|discriminate].
-  - exists [92; 100]%N, 32%N. split; [reflexivity|discriminate].
-  - exists [92; 99]%N, 32%N. split; [reflexivity|discriminate].
-  - exists [92]%N, 34%N. split; [reflexivity|discriminate].
-  - exists [], c. split; [reflexivity|exact H].
-Qed.
-
-Lemma esc_not_endswith v : no_backslash v -> py_endswith (flat_map esc1 v) [92%N] = false.
-Proof.
-  intros Hn. unfold py_endswith. cbn [rev app].
-  destruct (starts [92%N] (rev (flat_map esc1 v))) eqn:E; [|reflexivity]. exfalso.
-  apply starts_spec in E as [r Hr]. apply (f_equal (@rev N)) in Hr. rewrite rev_involutive in Hr.
-  cbn [app] in Hr. change (92%N :: r) with ([92%N] ++ r) in Hr. rewrite rev_app_distr in Hr. cbn [rev app] in Hr.
-  revert Hn Hr. generalize (rev r). clear r. induction v as [|c v IH] using rev_ind; intros y Hn Hr.
-  - destruct y; discriminate.
-  - rewrite flat_map_app in Hr. cbn [flat_map] in Hr. rewrite app_nil_r in Hr.
-    assert (Hc : c <> 92%N) by (intros ->; apply Hn; apply in_or_app; right; left; reflexivity).
-    destruct (esc1_last c Hc) as (pre & l & Hp & Hl). rewrite Hp, app_assoc in Hr.
-    apply app_inj_tail in Hr as [_ Hr]. congruence.
-Qed.
-
-Lemma hstring_nobs v : no_backslash v -> hstring v = 34%N :: flat_map esc1 v ++ [34%N].
-Proof.
-  intros Hn. unfold hstring. rewrite !py_replace_char, !flat_map_flat_map.
-  rewrite (flat_map_ext_in _ esc1).
-  - rewrite (esc_not_endswith v Hn). reflexivity.
-  - intros c Hc. apply esc_chain. intros ->. exact (Hn Hc).
-Qed.
-
-(* ------------------------------------------------------------------ the STRING production on such a text *)
+(* ------------------------------------------------------------------ the STRING production on the written text *)
 Definition body_dq : re := match re_STRING with Alt (Cat _ (Cat (Rep b _ _) _)) _ => b | _ => Eps end.
 Definition sq_branch : re := match re_STRING with Alt _ b => b | _ => Eps end.
 Definition body_dq_tail : re := match body_dq with Alt _ b => b | _ => Eps end.
+Definition nl_alt : re := (Alt (Chr 10) (Alt (Cat (Chr 13) (Chr 10)) (Alt (Chr 13) (Chr 12))))%N.
+Definition ws_opt : re := match body_dq_tail with Alt _ (Cat _ (Alt (Cat _ w) _)) => w | _ => Eps end.
 
 (* the shapes the proofs below rely on; a change of the string macros in cssproductions.py breaks them here *)
 Lemma re_STRING_shape : re_STRING = Alt (Cat (Chr 34) (Cat (Rep body_dq 0 None) (Chr 34))) sq_branch.
@@ -112,79 +139,151 @@ Proof. reflexivity. Qed.
 Lemma body_dq_shape :
   body_dq = Alt (Cls true [(10, 10); (13, 13); (12, 12); (92, 92); (34, 34)]%N) body_dq_tail.
 Proof. reflexivity. Qed.
+Lemma body_dq_tail_shape :
+  body_dq_tail = Alt (Cat (Chr 92) nl_alt)
+                     (Cat (Chr 92) (Alt (Cat (Rep (Cls false hexr) 1 (Some 6)) ws_opt)
+                                        (Cls true [(10, 10); (13, 13); (12, 12); (48, 57); (97, 102)]%N))).
+Proof. reflexivity. Qed.
 
 Lemma ltb_S n : (n <? S n)%nat = true.
 Proof. apply Nat.ltb_lt; lia. Qed.
 Lemma ltb_SS n : (S n <? S (S n))%nat = true.
 Proof. apply Nat.ltb_lt; lia. Qed.
+Lemma ltb_SSS n : (S (S n) <? S (S (S n)))%nat = true.
+Proof. apply Nat.ltb_lt; lia. Qed.
 
-(* one unit of the escaped text is consumed by one iteration of the string body *)
-Lemma unit_hex R prev t (kk : cont R) h r :
-  h = 97%N \/ h = 100%N \/ h = 99%N -> kk (Some 32%N) t = Some r ->
-  m body_dq prev (92 :: h :: 32 :: t)%N kk = Some r.
+Section Units.
+  Variable R : Type.
+  (* [Unit u]: one greedy iteration of the string body consumes exactly u, whatever follows *)
+  Definition Unit (u : str) : Prop :=
+    forall prev t (kk : cont R) r, (forall p, kk p t = Some r) -> m body_dq prev (u ++ t) kk = Some r.
+
+  Lemma unit_nl h : h = 97%N \/ h = 100%N \/ h = 99%N -> Unit [92%N; h; 32%N].
+  Proof.
+    intros Hh prev t kk r Hk. unfold body_dq.
+    destruct Hh as [->|[->| ->]]; cbn -[Nat.ltb]; rewrite ltb_SS, ltb_S, Hk; reflexivity.
+  Qed.
+  Lemma unit_5c : Unit [92; 53; 99; 32]%N.
+  Proof.
+    intros prev t kk r Hk. unfold body_dq. cbn -[Nat.ltb]. rewrite ltb_SSS, ltb_SS, ltb_S, Hk. reflexivity.
+  Qed.
+  Lemma unit_quote : Unit [92; 34]%N.
+  Proof. intros prev t kk r Hk. unfold body_dq. cbn -[Nat.ltb]. rewrite Hk. reflexivity. Qed.
+  Lemma unit_plain c : c <> 10%N -> c <> 13%N -> c <> 12%N -> c <> 92%N -> c <> 34%N -> Unit [c].
+  Proof.
+    intros H1 H2 H3 H4 H5 prev t kk r Hk. rewrite body_dq_shape. cbn [m app].
+    assert (E : in_ranges c [(10, 10); (13, 13); (12, 12); (92, 92); (34, 34)]%N = false) by ranges_false.
+    rewrite E. cbn [xorb]. rewrite Hk. reflexivity.
+  Qed.
+  (* a backslash and a character that is neither a hex digit nor a newline: a simple escape *)
+  Lemma unit_pair x : ishex x = false -> isnl x = false -> Unit [92%N; x].
+  Proof.
+    intros Hh Hn prev t kk r Hk. rewrite ishex_ranges in Hh.
+    destruct (isnl_false x Hn) as (N10 & N13 & N12). destruct (ranges_bounds x Hh) as (B1 & B2 & B3).
+    rewrite body_dq_shape, body_dq_tail_shape. cbn [app]. unfold nl_alt.
+    apply N.eqb_neq in N10, N13, N12.
+    cbn -[in_ranges N.eqb Nat.ltb hexr ws_opt]. rewrite ?N.eqb_refl, ?N10, ?N13, ?N12, ?Hh.
+    cbn -[in_ranges N.eqb Nat.ltb hexr ws_opt]. rewrite ?N.eqb_refl, ?N10, ?N13, ?N12, ?Hh.
+    assert (E : in_ranges x [(10, 10); (13, 13); (12, 12); (48, 57); (97, 102)]%N = false).
+    { apply N.eqb_neq in N10, N13, N12. ranges_false. }
+    change (in_ranges 92 [(10, 10); (13, 13); (12, 12); (92, 92); (34, 34)]%N) with true. cbv iota.
+    rewrite E. rewrite Hk. reflexivity.
+  Qed.
+
+  Lemma unit_str_plain c : c <> 92%N -> exists us, str_plain c = concat us /\ Forall Unit us /\ Forall (fun u => u <> []) us.
+  Proof.
+    intros Hc. destruct (str_plain_cases c Hc) as [[-> ->]|[[-> ->]|[[-> ->]|[[-> ->]|(H34 & Hn & ->)]]]].
+    - exists [[92; 34]%N]. repeat split; repeat constructor; [apply unit_quote|discriminate].
+    - exists [[92; 97; 32]%N]. repeat split; repeat constructor; [apply unit_nl; auto|discriminate].
+    - exists [[92; 100; 32]%N]. repeat split; repeat constructor; [apply unit_nl; auto|discriminate].
+    - exists [[92; 99; 32]%N]. repeat split; repeat constructor; [apply unit_nl; auto|discriminate].
+    - destruct (isnl_false c Hn) as (N10 & N13 & N12).
+      exists [[c]]. repeat split; repeat constructor; [apply unit_plain; auto|discriminate].
+  Qed.
+
+  (* greedy iteration over a text made of units stops exactly at the closing quote *)
+  Variables (kq : cont R) (res : R) (follow : str).
+  Hypothesis Hkq : forall p, kq p (34%N :: follow) = Some res.
+  Definition Iter (t : str) : Prop :=
+    forall fuel prev, (length t < fuel)%nat -> rep_iter (m body_dq) kq fuel 0 None prev t = Some res.
+
+  Lemma Iter_close : Iter (34%N :: follow).
+  Proof.
+    intros fuel prev Hf. destruct fuel as [|f]; [lia|]. cbn [rep_iter].
+    assert (E : forall kk : cont R, m body_dq prev (34%N :: follow) kk = None) by (intros kk; unfold body_dq; cbn; reflexivity).
+    rewrite E. apply Hkq.
+  Qed.
+  Lemma Iter_unit u t : Unit u -> u <> [] -> Iter t -> Iter (u ++ t).
+  Proof.
+    intros Hu Hne Ht fuel prev Hf. destruct fuel as [|f]; [lia|]. cbn [rep_iter].
+    rewrite (Hu prev t _ res); [reflexivity|]. intros p. rewrite app_length in *.
+    assert (0 < length u)%nat by (destruct u; [congruence|simpl; lia]).
+    replace (Nat.ltb _ _) with true by (symmetry; apply Nat.ltb_lt; lia).
+    apply Ht. lia.
+  Qed.
+  Lemma Iter_units us t : Forall Unit us -> Forall (fun u => u <> []) us -> Iter t -> Iter (concat us ++ t).
+  Proof.
+    induction us as [|u us IH]; intros Hu Hn Ht; [exact Ht|]. cbn [concat]. rewrite <- app_assoc.
+    inversion Hu; inversion Hn; subst. apply Iter_unit; auto.
+  Qed.
+
+  Definition pre (st : sstate) : str := match st with S2 => [92%N] | _ => [] end.
+  Lemma ishex_92 : ishex 92%N = false. Proof. reflexivity. Qed.
+  Lemma isnl_92 : isnl 92%N = false. Proof. reflexivity. Qed.
+  Lemma plain_hexdigit c : ishex c = true -> Unit [c].
+  Proof.
+    intros H. rewrite ishex_ranges in H. apply ranges_hex_true in H. apply unit_plain; lia.
+  Qed.
+
+  Lemma body_iter : forall r st, rep_ok st r = true -> Iter (pre st ++ hstring_loop st r ++ 34%N :: follow).
+  Proof.
+    assert (Upair : Unit [92; 92]%N) by (apply unit_pair; reflexivity).
+    assert (P53 : Unit [53%N]) by (apply unit_plain; discriminate).
+    assert (P99 : Unit [99%N]) by (apply unit_plain; discriminate).
+    assert (P32 : Unit [32%N]) by (apply unit_plain; discriminate).
+    induction r as [|c r IH]; intros st Hok.
+    - destruct st; cbn [pre hstring_loop app]; unfold str_end1, str_end2.
+      + apply Iter_close.
+      + apply (Iter_unit [92; 92]%N); [exact Upair|discriminate|apply Iter_close].
+      + apply (Iter_unit [92; 92]%N); [exact Upair|discriminate|].
+        apply (Iter_unit [92; 53; 99; 32]%N); [apply unit_5c|discriminate|apply Iter_close].
+    - cbn [rep_ok] in Hok. cbn [hstring_loop]. unfold str_bs, str_s1_first, str_s2_first, str_s1_hex, str_s2_hex, str_s1_else, str_s2_else.
+      destruct st; destruct (N.eqb_spec c 92) as [->|Hc].
+      + (* SN, backslash *) apply (IH S1 Hok).
+      + (* SN, other *) destruct (unit_str_plain c Hc) as (us & -> & Hu & Hn). cbn [pre app]. rewrite <- app_assoc.
+        apply Iter_units; auto. apply (IH SN Hok).
+      + (* S1, backslash *) cbn [pre app]. apply (IH S2 Hok).
+      + (* S1, other *) apply andb_true_iff in Hok as [Hok H3]. apply andb_true_iff in Hok as [H1 H2].
+        apply negb_true_iff in H1, H2. apply N.eqb_neq in H1.
+        destruct (str_plain_cases c Hc) as [[-> _]|[[-> _]|[[-> _]|[[-> _]|(_ & _ & ->)]]]]; try congruence; try discriminate.
+        cbn [pre app]. destruct (ishex c) eqn:Eh; fold (ishex c) in *; change (mem c str_hexdigits) with (ishex c); rewrite Eh; cbn [app].
+        * apply (Iter_unit [92; 53; 99; 32]%N); [apply unit_5c|discriminate|].
+          apply (Iter_unit [c]); [apply plain_hexdigit; exact Eh|discriminate|apply (IH SN H3)].
+        * apply (Iter_unit [92%N; c]); [apply unit_pair; assumption|discriminate|apply (IH SN H3)].
+      + (* S2, backslash *) cbn [pre app]. apply (Iter_unit [92; 92]%N); [exact Upair|discriminate|]. apply (IH S1 Hok).
+      + (* S2, other *) apply andb_true_iff in Hok as [H2 H3]. apply negb_true_iff in H2.
+        cbn [pre app]. change (mem c str_hexdigits) with (ishex c). destruct (ishex c) eqn:Eh; cbn [app].
+        * apply (Iter_unit [92; 92]%N); [exact Upair|discriminate|].
+          apply (Iter_unit [53%N]); [exact P53|discriminate|]. apply (Iter_unit [99%N]); [exact P99|discriminate|].
+          apply (Iter_unit [32%N]); [exact P32|discriminate|].
+          destruct (str_plain_cases c Hc) as [[-> _]|[[-> _]|[[-> _]|[[-> _]|(_ & _ & ->)]]]]; try discriminate.
+          apply (Iter_unit [c]); [apply plain_hexdigit; exact Eh|discriminate|apply (IH SN H3)].
+        * apply (Iter_unit [92; 92]%N); [exact Upair|discriminate|].
+          destruct (unit_str_plain c Hc) as (us & -> & Hu & Hn). rewrite <- app_assoc.
+          apply Iter_units; auto. apply (IH SN H3).
+  Qed.
+End Units.
+
+Lemma rmatch_string_rep prev v follow : representable v ->
+  rmatch re_STRING prev (hstring v ++ follow) = Some (length (hstring v)).
 Proof.
-  intros Hh Hk. unfold body_dq.
-  destruct Hh as [->|[->| ->]]; cbn -[Nat.ltb]; rewrite ltb_SS, ltb_S, Hk; reflexivity.
-Qed.
-
-Lemma unit_quote R prev t (kk : cont R) r :
-  kk (Some 34%N) t = Some r -> m body_dq prev (92 :: 34 :: t)%N kk = Some r.
-Proof. intros Hk. unfold body_dq. cbn -[Nat.ltb]. rewrite Hk. reflexivity. Qed.
-
-Lemma unit_close R prev t (kk : cont R) : m body_dq prev (34 :: t)%N kk = None.
-Proof. unfold body_dq. cbn. reflexivity. Qed.
-
-Lemma unit_plain R prev t (kk : cont R) c r :
-  c <> 10%N -> c <> 13%N -> c <> 12%N -> c <> 92%N -> c <> 34%N ->
-  kk (Some c) t = Some r -> m body_dq prev (c :: t) kk = Some r.
-Proof.
-  intros H1 H2 H3 H4 H5 Hk. rewrite body_dq_shape. cbn [m].
-  assert (E : in_ranges c [(10, 10); (13, 13); (12, 12); (92, 92); (34, 34)]%N = false).
-  { cbn [in_ranges].
-    repeat match goal with |- context [N.leb ?a ?b] => destruct (N.leb_spec a b) end; simpl; try reflexivity; lia. }
-  rewrite E. cbn [xorb]. rewrite Hk. reflexivity.
-Qed.
-
-Lemma esc1_unit R prev c t (kk : cont R) r : c <> 92%N ->
-  (forall p, kk p t = Some r) -> m body_dq prev (esc1 c ++ t) kk = Some r.
-Proof.
-  intros Hc Hk.
-  destruct (esc1_cases c) as [[_ ->]|[[_ ->]|[[_ ->]|[[_ ->]|(H1 & H2 & H3 & H4 & ->)]]]]; cbn [app].
-  - apply unit_hex; auto.
-  - apply unit_hex; auto.
-  - apply unit_hex; auto.
-  - apply unit_quote; auto.
-  - apply unit_plain; auto.
-Qed.
-
-Lemma esc1_nonempty c : (0 < length (esc1 c))%nat.
-Proof.
-  destruct (esc1_cases c) as [[_ ->]|[[_ ->]|[[_ ->]|[[_ ->]|(_ & _ & _ & _ & ->)]]]]; simpl; lia.
-Qed.
-
-(* greedy iteration of the body over the escaped value stops exactly at the closing quote *)
-Lemma body_iter R (kq : cont R) r follow : (forall p, kq p (34%N :: follow) = Some r) ->
-  forall v fuel prev, no_backslash v -> (length (flat_map esc1 v ++ 34%N :: follow) < fuel)%nat ->
-  rep_iter (m body_dq) kq fuel 0 None prev (flat_map esc1 v ++ 34%N :: follow) = Some r.
-Proof.
-  intros Hk v. induction v as [|c v IH]; intros fuel prev Hn Hf; (destruct fuel as [|f]; [lia|]).
-  - cbn [flat_map app rep_iter]. rewrite unit_close. apply Hk.
-  - cbn [flat_map rep_iter]. rewrite <- app_assoc.
-    assert (Hc : c <> 92%N) by (intros ->; apply Hn; left; reflexivity).
-    assert (Hn' : no_backslash v) by (intros H; apply Hn; right; exact H).
-    rewrite (esc1_unit _ _ c _ _ r Hc); [reflexivity|]. intros p.
-    pose proof (esc1_nonempty c) as Hl.
-    cbn [flat_map] in Hf. rewrite <- app_assoc, app_length in Hf.
-    replace (Nat.ltb _ _) with true by (symmetry; apply Nat.ltb_lt; rewrite (app_length (esc1 c)); lia).
-    apply IH; [exact Hn'|]. lia.
-Qed.
-
-Lemma rmatch_string_nobs prev v follow : no_backslash v ->
-  rmatch re_STRING prev (34%N :: flat_map esc1 v ++ 34%N :: follow) = Some (length (34%N :: flat_map esc1 v ++ [34%N])).
-Proof.
-  intros Hn. unfold rmatch. rewrite re_STRING_shape. cbn [m]. rewrite N.eqb_refl.
-  rewrite (body_iter _ _ (length (34%N :: flat_map esc1 v ++ [34%N])) follow); [reflexivity| |exact Hn|lia].
-  intros p. rewrite N.eqb_refl. f_equal. cbn [length]. rewrite !app_length. cbn [length]. lia.
+  intros Hr. unfold rmatch. rewrite hstring_unfold, re_STRING_shape. cbn [app m]. rewrite N.eqb_refl.
+  rewrite <- app_assoc. cbn [app].
+  match goal with |- context [rep_iter (m body_dq) ?k _ _ _ _ _] =>
+    assert (HK : forall p, k p (34%N :: follow) = Some (length (34%N :: hstring_loop SN v ++ [34%N])));
+      [|pose proof (body_iter nat k _ follow HK v SN Hr) as H] end.
+  { intros p. rewrite N.eqb_refl. f_equal. cbn [length]. rewrite !app_length. cbn [length]. lia. }
+  unfold Iter in H. cbn [pre app] in H. rewrite H by lia. reflexivity.
 Qed.
 
 (* ------------------------------------------------------------------ no earlier production matches a text that starts with a quote *)
@@ -268,151 +367,268 @@ Proof.
   unfold rmatch. rewrite (fails_on_sound r c Hr). apply IH; assumption.
 Qed.
 
-Lemma try_prods_string dc fs prev v follow : no_backslash v ->
+
+Lemma try_prods_string dc fs prev v follow : representable v ->
   try_prods productions dc fs prev (hstring v ++ follow) = Some (Step (s "STRING") (hstring v) true).
 Proof.
-  intros Hn. rewrite (hstring_nobs v Hn). rewrite productions_split.
-  cbn [app]. rewrite <- app_assoc. cbn [app].
+  intros Hr. pose proof (rmatch_string_rep prev v follow Hr) as Hm. revert Hm.
+  rewrite productions_split. rewrite hstring_unfold. cbn [app]. intros Hm.
   rewrite try_prods_skip; [|discriminate|exact before_STRING_fail].
   cbn [try_prods].
   change (eqs (s "STRING") (s "CHAR")) with false. rewrite andb_false_r. cbn [andb].
-  rewrite (rmatch_string_nobs prev v follow Hn).
+  rewrite Hm.
   change (eqs (s "STRING") (s "IDENT")) with false. cbn [andb].
   change (eqs (s "STRING") (s "INVALID")) with false. rewrite andb_false_r. cbn [andb].
   change (eqs (s "STRING") (s "FUNCTION")) with false. rewrite andb_false_r. cbn [andb].
   f_equal. f_equal.
-  change (34%N :: flat_map esc1 v ++ 34%N :: follow) with ((34%N :: flat_map esc1 v) ++ 34%N :: follow).
-  change (34%N :: flat_map esc1 v ++ [34%N]) with ((34%N :: flat_map esc1 v) ++ [34%N]).
-  replace ((34%N :: flat_map esc1 v) ++ 34%N :: follow) with (((34%N :: flat_map esc1 v) ++ [34%N]) ++ follow)
-    by (rewrite <- app_assoc; reflexivity).
+  change (34%N :: (hstring_loop SN v ++ [34%N]) ++ follow) with ((34%N :: hstring_loop SN v ++ [34%N]) ++ follow).
   rewrite firstn_app, firstn_all, Nat.sub_diag. cbn [firstn]. apply app_nil_r.
 Qed.
 
 (* ------------------------------------------------------------------ escape resolution of the token value *)
-Lemma rmatch_unicodesub_hex prev h t : h = 97%N \/ h = 100%N \/ h = 99%N ->
+Lemma rmatch_us_nonhex prev x t : ishex x = false -> rmatch re_unicodesub prev (92%N :: x :: t) = None.
+Proof.
+  intros Hh. rewrite ishex_ranges in Hh. destruct (ranges_bounds x Hh) as (B1 & B2 & B3).
+  assert (E : in_ranges x [(48, 57); (97, 102); (65, 70)]%N = false) by ranges_false.
+  unfold rmatch, re_unicodesub. cbn -[in_ranges Nat.ltb]. rewrite E. reflexivity.
+Qed.
+Lemma rmatch_us_nl prev h t : h = 97%N \/ h = 100%N \/ h = 99%N ->
   rmatch re_unicodesub prev (92 :: h :: 32 :: t)%N = Some 3%nat.
 Proof.
   intros Hh. unfold rmatch, re_unicodesub.
   destruct Hh as [->|[->| ->]]; cbn -[Nat.ltb Nat.sub]; rewrite ltb_SS, ltb_S; f_equal; cbn [length]; lia.
 Qed.
-Lemma rmatch_unicodesub_quote prev t : rmatch re_unicodesub prev (92 :: 34 :: t)%N = None.
-Proof. unfold rmatch, re_unicodesub. cbn. reflexivity. Qed.
-Lemma rmatch_cleanstring_quote prev t : rmatch re_cleanstring prev (92 :: 34 :: t)%N = None.
-Proof. unfold rmatch, re_cleanstring. cbn. reflexivity. Qed.
-
-Lemma repl_hex h : h = 97%N \/ h = 100%N \/ h = 99%N ->
-  repl [92; h; 32]%N = [if N.eqb h 97 then 10 else if N.eqb h 100 then 13 else 12]%N.
-Proof. intros [->|[->| ->]]; vm_compute; reflexivity. Qed.
-
-Definition res1 (c : N) : str := if N.eqb c 34 then [92; 34]%N else [c].
-
-Lemma unicodesub_esc v : no_backslash v -> forall fuel prev,
-  (length (flat_map esc1 v ++ [34%N]) < fuel)%nat ->
-  sub_all_fuel fuel re_unicodesub repl prev (flat_map esc1 v ++ [34%N]) = flat_map esc2 v ++ [34%N].
+Lemma rmatch_us_5c prev t : rmatch re_unicodesub prev (92 :: 53 :: 99 :: 32 :: t)%N = Some 4%nat.
 Proof.
-  induction v as [|c v IH]; intros Hn fuel prev Hf; (destruct fuel as [|f]; [lia|]).
-  - cbn [flat_map app sub_all_fuel]. unfold re_unicodesub at 1. rewrite rmatch_bs_none by discriminate.
-    destruct f; reflexivity.
-  - assert (Hc : c <> 92%N) by (intros ->; apply Hn; left; reflexivity).
-    assert (Hn' : no_backslash v) by (intros H; apply Hn; right; exact H).
-    cbn [flat_map] in *. rewrite <- app_assoc in *. rewrite app_length in Hf.
-    unfold esc2 at 1.
-    destruct (esc1_cases c) as [[-> E]|[[-> E]|[[-> E]|[[-> E]|(H1 & H2 & H3 & H4 & E)]]]]; rewrite E in *; cbn [app length] in *.
-    + cbn [sub_all_fuel]. rewrite rmatch_unicodesub_hex by auto. cbn [firstn skipn N.eqb Pos.eqb app].
-      rewrite repl_hex by auto. cbn [N.eqb Pos.eqb app]. f_equal. apply IH; [exact Hn'|lia].
-    + cbn [sub_all_fuel]. rewrite rmatch_unicodesub_hex by auto. cbn [firstn skipn N.eqb Pos.eqb app].
-      rewrite repl_hex by auto. cbn [N.eqb Pos.eqb app]. f_equal. apply IH; [exact Hn'|lia].
-    + cbn [sub_all_fuel]. rewrite rmatch_unicodesub_hex by auto. cbn [firstn skipn N.eqb Pos.eqb app].
-      rewrite repl_hex by auto. cbn [N.eqb Pos.eqb app]. f_equal. apply IH; [exact Hn'|lia].
-    + cbn [sub_all_fuel]. rewrite rmatch_unicodesub_quote. destruct f as [|f]; [lia|].
-      cbn [sub_all_fuel]. unfold re_unicodesub at 1. rewrite rmatch_bs_none by discriminate.
-      cbn [N.eqb Pos.eqb app]. f_equal. f_equal. apply IH; [exact Hn'|lia].
-    + cbn [sub_all_fuel]. unfold re_unicodesub at 1. rewrite rmatch_bs_none by exact Hc.
-      apply N.eqb_neq in H4. rewrite H4. cbn [app]. f_equal. apply IH; [exact Hn'|lia].
+  unfold rmatch, re_unicodesub. cbn -[Nat.ltb Nat.sub]. rewrite ltb_SSS, ltb_SS, ltb_S. f_equal. cbn [length]. lia.
 Qed.
-
-Lemma cleanstring_esc v : no_backslash v -> forall fuel prev,
-  (length (flat_map esc2 v ++ [34%N]) < fuel)%nat ->
-  sub_all_fuel fuel re_cleanstring (fun _ => []) prev (flat_map esc2 v ++ [34%N]) = flat_map esc2 v ++ [34%N].
+Lemma rmatch_cs_nonnl prev x t : isnl x = false -> rmatch re_cleanstring prev (92%N :: x :: t) = None.
 Proof.
-  induction v as [|c v IH]; intros Hn fuel prev Hf; (destruct fuel as [|f]; [lia|]).
-  - cbn [flat_map app sub_all_fuel]. unfold re_cleanstring at 1. rewrite rmatch_bs_none by discriminate.
-    destruct f; reflexivity.
-  - assert (Hc : c <> 92%N) by (intros ->; apply Hn; left; reflexivity).
-    assert (Hn' : no_backslash v) by (intros H; apply Hn; right; exact H).
-    cbn [flat_map] in *. rewrite <- app_assoc in *. rewrite app_length in Hf.
-    unfold esc2 at 1 in Hf. unfold esc2 at 1 3.
-    destruct (N.eqb_spec c 34) as [->|H4]; cbn [app length] in *.
-    + cbn [sub_all_fuel]. rewrite rmatch_cleanstring_quote. destruct f as [|f]; [lia|].
-      cbn [sub_all_fuel]. unfold re_cleanstring at 1. rewrite rmatch_bs_none by discriminate.
-      f_equal. f_equal. apply IH; [exact Hn'|lia].
-    + cbn [sub_all_fuel]. unfold re_cleanstring at 1. rewrite rmatch_bs_none by exact Hc.
-      f_equal. apply IH; [exact Hn'|lia].
+  intros Hn. destruct (isnl_false x Hn) as (N10 & N13 & N12).
+  assert (E : in_ranges x [(10, 10); (13, 13); (12, 12)]%N = false) by ranges_false.
+  apply N.eqb_neq in N13.
+  unfold rmatch, re_cleanstring. cbn -[in_ranges N.eqb]. rewrite N13, E. reflexivity.
 Qed.
 
 Lemma sub_all_fuel_plain r' f fuel prev c t : c <> 92%N ->
   sub_all_fuel (S fuel) (Cat (Chr 92) r') f prev (c :: t) = c :: sub_all_fuel fuel (Cat (Chr 92) r') f (Some c) t.
 Proof. intros H. cbn [sub_all_fuel]. rewrite rmatch_bs_none by exact H. reflexivity. Qed.
 
-Lemma finish_string_nobs v after : no_backslash v ->
-  finish_token (s "STRING") (hstring v) after = (s "STRING", hstring v, 34%N :: flat_map esc2 v ++ [34%N]).
+(* [Us t b]: unicodesub turns t into b, from any position / with any fuel that suffices *)
+Definition Us (t b : str) : Prop :=
+  forall fuel prev, (length t < fuel)%nat -> sub_all_fuel fuel re_unicodesub repl prev t = b.
+Lemma Us_nil : Us [] [].
+Proof. intros fuel prev _. destruct fuel; reflexivity. Qed.
+Lemma Us_plain c t b : c <> 92%N -> Us t b -> Us (c :: t) (c :: b).
 Proof.
-  intros Hn. unfold finish_token.
+  intros Hc Ht fuel prev Hf. destruct fuel as [|f]; [simpl in Hf; lia|]. unfold re_unicodesub.
+  rewrite sub_all_fuel_plain by exact Hc. f_equal. apply Ht. simpl in Hf. lia.
+Qed.
+Lemma Us_bs x t b : ishex x = false -> Us (x :: t) b -> Us (92%N :: x :: t) (92%N :: b).
+Proof.
+  intros Hx Ht fuel prev Hf. destruct fuel as [|f]; [simpl in Hf; lia|]. cbn [sub_all_fuel].
+  rewrite rmatch_us_nonhex by exact Hx. f_equal. apply Ht. simpl in Hf |- *. lia.
+Qed.
+Lemma Us_5c t b : Us t b -> Us (92 :: 53 :: 99 :: 32 :: t)%N (92%N :: b).
+Proof.
+  intros Ht fuel prev Hf. destruct fuel as [|f]; [simpl in Hf; lia|]. cbn [sub_all_fuel].
+  rewrite rmatch_us_5c. cbn [firstn skipn]. change (repl [92; 53; 99; 32]%N) with [92%N]. cbn [app]. f_equal.
+  apply Ht. simpl in Hf. lia.
+Qed.
+Lemma Us_nl h t b : h = 97%N \/ h = 100%N \/ h = 99%N -> Us t b ->
+  Us (92%N :: h :: 32%N :: t) ((if N.eqb h 97 then 10 else if N.eqb h 100 then 13 else 12)%N :: b).
+Proof.
+  intros Hh Ht fuel prev Hf. destruct fuel as [|f]; [simpl in Hf; lia|]. cbn [sub_all_fuel].
+  rewrite rmatch_us_nl by exact Hh. cbn [firstn skipn].
+  assert (E : repl [92%N; h; 32%N] = [(if N.eqb h 97 then 10 else if N.eqb h 100 then 13 else 12)%N])
+    by (destruct Hh as [->|[->| ->]]; vm_compute; reflexivity).
+  rewrite E. cbn [app]. f_equal. apply Ht. simpl in Hf. lia.
+Qed.
+
+Lemma bplain_str_plain c t b : c <> 92%N -> isnl c = false \/ True -> Us t b -> Us (str_plain c ++ t) (bplain c ++ b).
+Proof.
+  intros Hc _ Ht. unfold bplain.
+  destruct (str_plain_cases c Hc) as [[-> ->]|[[-> ->]|[[-> ->]|[[-> ->]|(H34 & Hn & ->)]]]]; cbn [app N.eqb Pos.eqb].
+  - apply Us_bs; [reflexivity|]. apply Us_plain; [discriminate|exact Ht].
+  - apply (Us_nl 97); auto.
+  - apply (Us_nl 100); auto.
+  - apply (Us_nl 99); auto.
+  - apply N.eqb_neq in H34. rewrite H34. cbn [app]. apply Us_plain; assumption.
+Qed.
+
+Lemma unicodesub_loop tl tb : Us tl tb -> (exists x t', tl = x :: t' /\ ishex x = false) ->
+  forall r st, rep_ok st r = true -> Us (hstring_loop st r ++ tl) (bloop st r ++ tb).
+Proof.
+  intros Htl (x0 & t0 & Etl & Hx0). induction r as [|c r IH]; intros st Hok.
+  - destruct st; cbn [hstring_loop bloop app]; unfold str_end1, str_end2; cbn [app].
+    + exact Htl.
+    + apply Us_bs; [reflexivity|]. rewrite Etl. apply Us_bs; [exact Hx0|]. rewrite <- Etl. exact Htl.
+    + apply Us_bs; [reflexivity|]. apply Us_5c. exact Htl.
+  - cbn [rep_ok] in Hok. cbn [hstring_loop bloop].
+    unfold str_bs, str_s1_first, str_s2_first, str_s1_hex, str_s2_hex, str_s1_else, str_s2_else.
+    change (mem c str_hexdigits) with (ishex c).
+    destruct st; destruct (N.eqb_spec c 92) as [->|Hc].
+    + apply (IH S1 Hok).
+    + rewrite <- !app_assoc. apply bplain_str_plain; [exact Hc|right; exact I|apply (IH SN Hok)].
+    + cbn [app]. destruct (loop_head S2 r tl) as [t' Et']; [discriminate|]. rewrite Et'.
+      apply Us_bs; [reflexivity|]. rewrite <- Et'. apply (IH S2 Hok).
+    + apply andb_true_iff in Hok as [Hok H3]. apply andb_true_iff in Hok as [H1 H2].
+      apply negb_true_iff in H1, H2. apply N.eqb_neq in H1.
+      destruct (str_plain_cases c Hc) as [[-> _]|[[-> _]|[[-> _]|[[-> _]|(_ & _ & Ep)]]]]; try congruence; try discriminate.
+      rewrite Ep. unfold bplain. replace (N.eqb c 34) with false by (symmetry; apply N.eqb_neq; exact H1).
+      destruct (ishex c) eqn:Eh; cbn [app].
+      * apply Us_5c. apply Us_plain; [exact Hc|]. apply (IH SN H3).
+      * apply Us_bs; [exact Eh|]. apply Us_plain; [exact Hc|]. apply (IH SN H3).
+    + cbn [app]. destruct (loop_head S1 r tl) as [t' Et']; [discriminate|]. rewrite Et'.
+      apply Us_bs; [reflexivity|]. rewrite <- Et'. apply (IH S1 Hok).
+    + apply andb_true_iff in Hok as [H2 H3]. apply negb_true_iff in H2.
+      destruct (ishex c) eqn:Eh; cbn [app].
+      * destruct (str_plain_cases c Hc) as [[-> _]|[[-> _]|[[-> _]|[[-> _]|(H34 & _ & Ep)]]]]; try discriminate.
+        rewrite Ep. unfold bplain. replace (N.eqb c 34) with false by (symmetry; apply N.eqb_neq; exact H34). cbn [app].
+        apply Us_5c. apply Us_plain; [exact Hc|]. apply (IH SN H3).
+      * rewrite <- !app_assoc.
+        assert (Hhd : exists y t', str_plain c ++ hstring_loop SN r ++ tl = y :: t' /\ ishex y = false).
+        { destruct (str_plain_cases c Hc) as [[-> ->]|[[-> ->]|[[-> ->]|[[-> ->]|(_ & _ & ->)]]]]; cbn [app]; eauto. }
+        destruct Hhd as (y & t' & Ey & Hy). rewrite Ey. apply Us_bs; [exact Hy|]. rewrite <- Ey.
+        apply bplain_str_plain; [exact Hc|right; exact I|apply (IH SN H3)].
+Qed.
+
+(* cleanstring leaves that text alone *)
+Definition Cs (t : str) : Prop :=
+  forall fuel prev, (length t < fuel)%nat -> sub_all_fuel fuel re_cleanstring (fun _ => []) prev t = t.
+Lemma Cs_plain c t : c <> 92%N -> Cs t -> Cs (c :: t).
+Proof.
+  intros Hc Ht fuel prev Hf. destruct fuel as [|f]; [simpl in Hf; lia|]. unfold re_cleanstring.
+  rewrite sub_all_fuel_plain by exact Hc. f_equal. apply Ht. simpl in Hf. lia.
+Qed.
+Lemma Cs_bs x t : isnl x = false -> Cs (x :: t) -> Cs (92%N :: x :: t).
+Proof.
+  intros Hx Ht fuel prev Hf. destruct fuel as [|f]; [simpl in Hf; lia|]. cbn [sub_all_fuel].
+  rewrite rmatch_cs_nonnl by exact Hx. f_equal. apply Ht. simpl in Hf |- *. lia.
+Qed.
+Lemma Cs_bplain c t : c <> 92%N -> Cs t -> Cs (bplain c ++ t).
+Proof.
+  intros Hc Ht. unfold bplain. destruct (N.eqb_spec c 34) as [->|H34]; cbn [app].
+  - apply Cs_bs; [reflexivity|]. apply Cs_plain; [discriminate|exact Ht].
+  - apply Cs_plain; assumption.
+Qed.
+Lemma cleanstring_loop : forall r st, rep_ok st r = true -> Cs (bloop st r ++ [34%N]).
+Proof.
+  assert (C34 : Cs [34%N]).
+  { intros fuel prev Hf. destruct fuel as [|f]; [simpl in Hf; lia|]. unfold re_cleanstring.
+    rewrite sub_all_fuel_plain by discriminate. destruct f; reflexivity. }
+  induction r as [|c r IH]; intros st Hok.
+  - destruct st; cbn [bloop app]; [exact C34| |]; (apply Cs_bs; [reflexivity|]; apply Cs_bs; [reflexivity|exact C34]).
+  - cbn [rep_ok] in Hok. cbn [bloop]. destruct st; destruct (N.eqb_spec c 92) as [->|Hc].
+    + apply (IH S1 Hok).
+    + rewrite <- app_assoc. apply Cs_bplain; [exact Hc|apply (IH SN Hok)].
+    + cbn [app]. destruct (bloop_head S2 r [34%N]) as [t' Et']; [discriminate|]. rewrite Et'.
+      apply Cs_bs; [reflexivity|]. rewrite <- Et'. apply (IH S2 Hok).
+    + apply andb_true_iff in Hok as [Hok H3]. apply andb_true_iff in Hok as [H1 H2].
+      apply negb_true_iff in H1, H2. apply N.eqb_neq in H1.
+      unfold bplain. replace (N.eqb c 34) with false by (symmetry; apply N.eqb_neq; exact H1). cbn [app].
+      apply Cs_bs; [exact H2|]. apply Cs_plain; [exact Hc|apply (IH SN H3)].
+    + cbn [app]. destruct (bloop_head S1 r [34%N]) as [t' Et']; [discriminate|]. rewrite Et'.
+      apply Cs_bs; [reflexivity|]. rewrite <- Et'. apply (IH S1 Hok).
+    + apply andb_true_iff in Hok as [H2 H3]. apply negb_true_iff in H2. cbn [app]. rewrite <- app_assoc.
+      unfold bplain. destruct (N.eqb_spec c 34) as [->|H34]; cbn [app].
+      * apply Cs_bs; [reflexivity|]. apply Cs_bs; [reflexivity|]. apply Cs_plain; [discriminate|apply (IH SN H3)].
+      * apply Cs_bs; [exact H2|]. apply Cs_plain; [exact Hc|apply (IH SN H3)].
+Qed.
+
+Lemma finish_string_rep v after : representable v ->
+  finish_token (s "STRING") (hstring v) after = (s "STRING", hstring v, 34%N :: bloop SN v ++ [34%N]).
+Proof.
+  intros Hr. unfold finish_token.
   change (mem_str (s "STRING") resolved_types) with true. change (mem_str (s "STRING") clean_types) with true.
-  cbv iota. f_equal. rewrite (hstring_nobs v Hn).
-  assert (Hu : unicodesub (34%N :: flat_map esc1 v ++ [34%N]) = 34%N :: flat_map esc2 v ++ [34%N]).
-  { unfold unicodesub, sub_all. cbn [length]. unfold re_unicodesub.
-    rewrite sub_all_fuel_plain by discriminate. f_equal. apply (unicodesub_esc v Hn). lia. }
+  cbv iota. f_equal.
+  assert (U34 : Us [34%N] [34%N]) by (apply Us_plain; [discriminate|apply Us_nil]).
+  assert (Hu : unicodesub (hstring v) = 34%N :: bloop SN v ++ [34%N]).
+  { rewrite hstring_unfold. unfold unicodesub, sub_all.
+    apply (Us_plain 34); [discriminate| |cbn [length]; lia].
+    apply unicodesub_loop; [exact U34| |exact Hr]. exists 34%N, []. split; reflexivity. }
   rewrite Hu. unfold cleanstring, sub_all. cbn [length]. unfold re_cleanstring.
-  rewrite sub_all_fuel_plain by discriminate. f_equal. apply (cleanstring_esc v Hn). lia.
+  rewrite sub_all_fuel_plain by discriminate. f_equal. apply (cleanstring_loop v SN Hr). lia.
 Qed.
 
 (* ------------------------------------------------------------------ Base._stringtokenvalue on that value *)
-Lemma replace_esc2 v : no_backslash v -> forall fuel,
-  (length (flat_map esc2 v ++ [34%N]) < fuel)%nat ->
-  py_replace_fuel fuel (flat_map esc2 v ++ [34%N]) [92; 34]%N [34%N] = v ++ [34%N].
+Definition Rp (t o : str) : Prop :=
+  forall fuel, (length t < fuel)%nat -> py_replace_fuel fuel t [92; 34]%N [34%N] = o.
+Lemma Rp_nil : Rp [] [].
+Proof. intros fuel _. destruct fuel; reflexivity. Qed.
+Lemma Rp_plain c t o : c <> 92%N -> Rp t o -> Rp (c :: t) (c :: o).
 Proof.
-  induction v as [|c v IH]; intros Hn fuel Hf; (destruct fuel as [|f]; [lia|]).
-  - cbn. destruct f; reflexivity.
-  - assert (Hc : c <> 92%N) by (intros ->; apply Hn; left; reflexivity).
-    assert (Hn' : no_backslash v) by (intros H; apply Hn; right; exact H).
-    cbn [flat_map] in *. rewrite <- app_assoc in *. rewrite app_length in Hf.
-    unfold esc2 at 1 in Hf. unfold esc2 at 1.
-    destruct (N.eqb_spec c 34) as [->|H4]; cbn [app length] in *.
-    + cbn [py_replace_fuel starts N.eqb Pos.eqb andb length skipn app]. f_equal. apply IH; [exact Hn'|lia].
-    + cbn [py_replace_fuel starts]. replace (N.eqb 92 c) with false by (symmetry; apply N.eqb_neq; congruence).
-      cbn [andb]. f_equal. apply IH; [exact Hn'|lia].
+  intros Hc Ht fuel Hf. destruct fuel as [|f]; [simpl in Hf; lia|]. cbn [py_replace_fuel starts].
+  replace (N.eqb 92 c) with false by (symmetry; apply N.eqb_neq; congruence). cbn [andb]. f_equal. apply Ht. simpl in Hf. lia.
+Qed.
+Lemma Rp_bs x t o : x <> 34%N -> Rp (x :: t) o -> Rp (92%N :: x :: t) (92%N :: o).
+Proof.
+  intros Hx Ht fuel Hf. destruct fuel as [|f]; [simpl in Hf; lia|]. cbn [py_replace_fuel starts]. rewrite N.eqb_refl.
+  replace (N.eqb 34 x) with false by (symmetry; apply N.eqb_neq; congruence). cbn [andb]. f_equal. apply Ht. simpl in Hf |- *. lia.
+Qed.
+Lemma Rp_bsq t o : Rp t o -> Rp (92 :: 34 :: t)%N (34%N :: o).
+Proof.
+  intros Ht fuel Hf. destruct fuel as [|f]; [simpl in Hf; lia|].
+  cbn [py_replace_fuel starts]. rewrite !N.eqb_refl. cbn [andb length skipn app]. f_equal. apply Ht. simpl in Hf. lia.
+Qed.
+Lemma Rp_bplain c t o : c <> 92%N -> Rp t o -> Rp (bplain c ++ t) (c :: o).
+Proof.
+  intros Hc Ht. unfold bplain. destruct (N.eqb_spec c 34) as [->|H34]; cbn [app].
+  - apply Rp_bsq. exact Ht.
+  - apply Rp_plain; assumption.
+Qed.
+Lemma replace_loop : forall r st, rep_ok st r = true -> Rp (bloop st r ++ [34%N]) (vsuf st r ++ [34%N]).
+Proof.
+  assert (R34 : Rp [34%N] [34%N]) by (apply Rp_plain; [discriminate|apply Rp_nil]).
+  induction r as [|c r IH]; intros st Hok.
+  - destruct st; cbn [bloop vsuf app]; [exact R34| |]; (apply Rp_bs; [discriminate|]; apply Rp_bsq; apply Rp_nil).
+  - cbn [rep_ok] in Hok. cbn [bloop]. destruct st; destruct (N.eqb_spec c 92) as [->|Hc]; cbn [vsuf].
+    + apply (IH S1 Hok).
+    + rewrite <- app_assoc. cbn [app]. apply Rp_bplain; [exact Hc|apply (IH SN Hok)].
+    + cbn [app]. destruct (bloop_head S2 r [34%N]) as [t' Et']; [discriminate|]. rewrite Et'.
+      apply Rp_bs; [discriminate|]. rewrite <- Et'. apply (IH S2 Hok).
+    + apply andb_true_iff in Hok as [Hok H3]. apply andb_true_iff in Hok as [H1 H2].
+      apply negb_true_iff in H1. apply N.eqb_neq in H1.
+      unfold bplain. replace (N.eqb c 34) with false by (symmetry; apply N.eqb_neq; exact H1). cbn [app].
+      apply Rp_bs; [exact H1|]. apply Rp_plain; [exact Hc|apply (IH SN H3)].
+    + cbn [app]. destruct (bloop_head S1 r [34%N]) as [t' Et']; [discriminate|]. rewrite Et'.
+      apply Rp_bs; [discriminate|]. rewrite <- Et'. apply (IH S1 Hok).
+    + apply andb_true_iff in Hok as [_ H3]. cbn [app]. rewrite <- app_assoc.
+      unfold bplain. destruct (N.eqb_spec c 34) as [->|H34]; cbn [app].
+      * apply Rp_bs; [discriminate|]. apply Rp_bsq. apply (IH SN H3).
+      * apply Rp_bs; [exact H34|]. apply Rp_plain; [exact Hc|apply (IH SN H3)].
 Qed.
 
-Lemma py_replace_fuel_plain f c x q b : c <> 92%N ->
-  py_replace_fuel (S f) (c :: x) [92%N; q] b = c :: py_replace_fuel f x [92%N; q] b.
+Lemma py_slice_1_1 c d (y : str) : py_slice_nn 1 1 (c :: y ++ [d]) = y.
 Proof.
-  intros H. cbn [py_replace_fuel starts].
-  replace (N.eqb 92 c) with false by (symmetry; apply N.eqb_neq; congruence). reflexivity.
+  unfold py_slice_nn. cbn [skipn length]. rewrite app_length. cbn [length].
+  replace (S (length y + 1) - 1 - 1)%nat with (length y) by lia.
+  rewrite firstn_app, firstn_all, Nat.sub_diag. cbn [firstn]. apply app_nil_r.
 Qed.
 
-Lemma stringtokenvalue_nobs v ty0 raw0 l c : no_backslash v ->
-  stringtokenvalue (Some (mkTok ty0 raw0 (34%N :: flat_map esc2 v ++ [34%N]) l c)) = Ok (Some v).
+Lemma stringtokenvalue_rep v ty0 raw0 l c : representable v ->
+  stringtokenvalue (Some (mkTok ty0 raw0 (34%N :: bloop SN v ++ [34%N]) l c)) = Ok (Some v).
 Proof.
-  intros Hn. unfold stringtokenvalue. cbn [val py_index0 app].
-  unfold py_replace. cbn [length]. rewrite py_replace_fuel_plain by discriminate.
-  rewrite (replace_esc2 v Hn) by lia. rewrite py_slice_1_1. reflexivity.
+  intros Hr. unfold stringtokenvalue. cbn [val py_index0 app].
+  unfold py_replace. cbn [length].
+  rewrite (Rp_plain 34 (bloop SN v ++ [34%N]) (v ++ [34%N])); [|discriminate|apply (replace_loop v SN Hr)|cbn [length]; lia].
+  rewrite py_slice_1_1. reflexivity.
 Qed.
 
 (* ------------------------------------------------------------------ the round trip *)
-Lemma hstring_shape v : no_backslash v -> exists y, hstring v = 34%N :: y.
-Proof. intros Hn. rewrite (hstring_nobs v Hn). eauto. Qed.
+Lemma hstring_shape v : exists y, hstring v = 34%N :: y.
+Proof. rewrite hstring_unfold. eauto. Qed.
 
 Theorem string_roundtrip_lemma : forall dc fs v follow,
-  no_backslash v ->
+  representable v ->
   exists t, first_token dc fs (hstring v ++ follow) = Some t /\
             ty t = s "STRING" /\ raw t = hstring v /\ line t = 1%nat /\ col t = 1%nat /\
             stringtokenvalue (Some t) = Ok (Some v).
 Proof.
   intros dc fs v follow Hn.
-  exists (mkTok (s "STRING") (hstring v) (34%N :: flat_map esc2 v ++ [34%N]) 1 1).
-  split; [|repeat split; apply stringtokenvalue_nobs; exact Hn].
-  destruct (hstring_shape v Hn) as [y Hy].
+  exists (mkTok (s "STRING") (hstring v) (34%N :: bloop SN v ++ [34%N]) 1 1).
+  split; [|repeat split; apply stringtokenvalue_rep; exact Hn].
+  destruct (hstring_shape v) as [y Hy].
   unfold first_token, tokenize.
   assert (Hb : rmatch (snd bom_production) None (hstring v ++ follow) = None).
   { rewrite Hy. unfold rmatch. apply fails_on_sound. exact bom_fails_dq. }
@@ -422,13 +638,13 @@ Proof.
   set (text := hstring v ++ follow).
   assert (Htext : text = 34%N :: y ++ follow) by (unfold text; rewrite Hy; reflexivity).
   assert (Hl : loop (S (length text)) dc fs None text 1 1 =
-               option_map (cons (mkTok (s "STRING") (hstring v) (34%N :: flat_map esc2 v ++ [34%N]) 1 1))
+               option_map (cons (mkTok (s "STRING") (hstring v) (34%N :: bloop SN v ++ [34%N]) 1 1))
                  (let '(l', c') := upd_pos 1 1 (hstring v) in
                   loop (length text) dc fs (last_opt None (hstring v)) follow l' c')).
   { rewrite Htext at 2. cbn [loop]. change (mem 34%N fastchars) with false. cbv iota.
     rewrite <- Htext. unfold text. rewrite (try_prods_string dc fs None v follow Hn).
     rewrite skipn_app, skipn_all, Nat.sub_diag. cbn [skipn app].
-    rewrite (finish_string_nobs v follow Hn).
+    rewrite (finish_string_rep v follow Hn).
     rewrite skipn_app, skipn_all, Nat.sub_diag. cbn [skipn app].
     destruct (upd_pos 1 1 (hstring v)) as [l' c'].
     change (eqs (s "STRING") (s "COMMENT")) with false. cbn [negb]. rewrite orb_true_r.
@@ -441,7 +657,7 @@ Qed.
 
 (* the second half of the property at this level: writing the re-read value gives the same text *)
 Corollary string_fixpoint_lemma : forall dc fs v follow t w,
-  no_backslash v -> first_token dc fs (hstring v ++ follow) = Some t ->
+  representable v -> first_token dc fs (hstring v ++ follow) = Some t ->
   stringtokenvalue (Some t) = Ok (Some w) -> hstring w = hstring v.
 Proof.
   intros dc fs v follow t w Hn Ht Hw.
@@ -449,12 +665,12 @@ Proof.
   rewrite Ht in Ht'. injection Ht' as <-. rewrite Hw in Hv. injection Hv as ->. reflexivity.
 Qed.
 
-(* ------------------------------------------------------------------ values WITH a backslash: the round trip fails *)
+(* ------------------------------------------------------------------ the value that is still not restored *)
 (* The single-quoted source  apostrophe backslash quote apostrophe  is one STRING token whose string value is
    backslash quote  (Base._stringtokenvalue removes the backslash only in front of the token's own quote
-   character).  helper.string writes that value as  quote backslash backslash quote quote,  whose first token is
-   the string  quote backslash backslash quote  with the value  backslash  -- a different value, and the rest of
-   the text is an unterminated string.                                                                    *)
+   character).  helper.string writes that value as  quote backslash backslash quote quote  (this very output is
+   asserted by the pinned test test_value.py:411, so the writer keeps it); its first token is the string
+   quote backslash backslash quote  with the value  backslash,  and an unterminated string follows.        *)
 Definition bs_source : str := [39; 92; 34; 39]%N.
 Definition bs_value : str := [92; 34]%N.
 
@@ -463,15 +679,18 @@ Lemma bs_value_is_parsed : forall fs,
   = Some (s "STRING", Ok (Some bs_value)).
 Proof. intros [|]; vm_compute; reflexivity. Qed.
 
+Lemma bs_value_not_representable : representable bs_value -> False.
+Proof. vm_compute. discriminate. Qed.
+
 Lemma bs_value_not_restored : forall fs,
   hstring bs_value = [34; 92; 92; 34; 34]%N /\
   option_map (fun t => (raw t, stringtokenvalue (Some t))) (first_token true fs (hstring bs_value))
   = Some ([34; 92; 92; 34]%N, Ok (Some [92%N])).
 Proof. intros [|]; vm_compute; split; reflexivity. Qed.
 
-(* a value with a backslash that does survive (a trailing backslash is doubled by helper.string and
-   halved again by the replace of backslash-quote in _stringtokenvalue) -- the failure is not "every backslash" *)
-Example trailing_backslash_survives :
-  option_map (fun t => stringtokenvalue (Some t)) (first_token true false (hstring [97; 92]%N ++ s " x"))
-  = Some (Ok (Some [97; 92]%N)).
-Proof. vm_compute. reflexivity. Qed.
+(* values with backslashes that ARE representable: a backslash before a hex digit (was C03-backslash-reread-as-escape),
+   a backslash pair before a hex digit, trailing backslashes, a simple escape *)
+Example backslash_values_representable :
+  representable [92; 53; 50; 99]%N /\ representable [252; 92; 92; 100; 48]%N /\ representable [97; 92]%N /\
+  representable [97; 92; 92]%N /\ representable [50; 92; 92; 32; 49; 92; 32; 50; 92]%N /\ representable [92; 39; 92; 103]%N.
+Proof. vm_compute. repeat split; reflexivity. Qed.
